@@ -158,6 +158,36 @@ def weaver_cold_jobs(rng, k):
     return out
 
 
+def weaver_reader_jobs(rng, k):
+    """ONE Weaver read by all threads: slices by value / by index and the getters return views or copies and leave the
+    object as it was, so what one reader is given must not depend on what the others are asking"""
+    from traffic_weaver import Weaver
+    x, y, _m = R.gen_series(rng, 300, 3000, ties_share=0.0)
+    holder = {}
+
+    def obj():
+        if "wv" not in holder:
+            holder["wv"] = Weaver(x.copy(), y.copy())
+        return holder["wv"]
+    out = []
+    n = len(x)
+    for _ in range(k):
+        t = int(rng.integers(0, 4))
+        i, j = sorted(int(v) for v in rng.integers(0, n, 2))
+        step = int(rng.integers(1, 4))
+        if t == 0 or t == 1:
+            a, b = float(x[i]), float(x[j])
+            out.append(("shared Weaver: slice_by_value(%r, %r, %d)" % (a, b, step),
+                        lambda a=a, b=b, step=step: (lambda: tuple(np.array(v) for v in obj().slice_by_value(a, b, step)))))
+        elif t == 2:
+            out.append(("shared Weaver: slice_by_index(%d, %d, %d)" % (i, j + 1, step),
+                        lambda i=i, j=j, step=step: (lambda: tuple(np.array(v) for v in obj().slice_by_index(i, j + 1, step)))))
+        else:
+            out.append(("shared Weaver: get() + get_reference()",
+                        lambda: (lambda: tuple(np.array(v) for v in obj().get() + obj().get_reference()))))
+    return out
+
+
 NO_THREADS = ("noise", "smooth")            # numpy.random is process-global by contract; FITPACK is third-party
 
 
@@ -195,7 +225,7 @@ def weaver_jobs(rng, k):
     return out
 
 
-FAMILIES = {"weaver_cold": weaver_cold_jobs, "rfa": rfa_jobs, "interp": interp_jobs, "match": match_jobs, "search": search_jobs, "domain": domain_jobs,
+FAMILIES = {"weaver_readers": weaver_reader_jobs, "weaver_cold": weaver_cold_jobs, "rfa": rfa_jobs, "interp": interp_jobs, "match": match_jobs, "search": search_jobs, "domain": domain_jobs,
             "weaver": weaver_jobs}
 
 
@@ -210,7 +240,8 @@ def plan(tier, shards=2):
 def run_case(ctx, families, idx, cold=False):
     rng = ctx.rng("threads", idx)
     cid = ctx.case_id("threads_cold" if cold else "threads", idx)
-    fam = families[int(rng.integers(0, len(families)))]
+    fam = families[idx % len(families)]             # every family of the check in turn (no family left to chance)
+    rng.integers(0, len(families))
     if cold and fam == "weaver":        # that family tries its programs out while generating them
         fam = "weaver_cold"
     jobs = FAMILIES[fam](rng, 8, **({"idx": idx} if fam == "rfa" else {}))
